@@ -59,6 +59,13 @@ claim("C13",
       "with an honest peer and the magnet string round trip are outside.",
       "DESIGN.md §4 C13")
 
+claim("C08",
+      "Proof, for every byte sequence a peer can send, that the reader never allocates beyond the configured message size "
+      "or 16 KiB per block, never reaches its explicit panic, delivers only the expected message kinds; that the metadata "
+      "downloader and the bitfield never index out of range under their representation invariants (which every operation "
+      "re-establishes). Partial: isolation between peers and deadlock freedom are concurrency properties outside.",
+      "DESIGN.md §4 C08")
+
 na("C10", "liveness/progress over unbounded schedules of several goroutines: a function contract cannot state fairness or progress measures (DESIGN.md §4 C10)")
 na("C20", "data races and lock-ups quantify over schedules; the contracts are sequential and assume the single-owner discipline C20 asks to prove (DESIGN.md §4 C20)")
 for p in ["C01", "C02", "C04", "C05", "C06", "C07", "C08", "C09", "C11", "C12", "C13", "C14", "C15", "C17", "C18", "C19"]:
